@@ -24,18 +24,79 @@ type pgen struct {
 	r    *rand.Rand
 	w    *world
 	a    *asm
-	st   []byte // kinds: i int, b bytes, a array, s struct, m map
+	st   []byte  // kinds: i int, b bytes, a array, s struct, m map
+	ob   []int   // per slot: index into objs of the container it refers to, -1 primitive, -2 unknown
+	objs [][]int // generator-side picture of the containers built so far: children (object ids)
 	alt  int
 	tags map[string]bool
+	// cyclicBudget: how many more sinks may receive a value that can reach a reference cycle
+	// (each costs seconds: the encoders recurse ~10^5..10^6 levels before the size limit or the
+	// stack limit stops them)
+	cyclicBudget *int
+}
+
+func (g *pgen) newObj() int { g.objs = append(g.objs, nil); return len(g.objs) - 1 }
+
+// cyclicFrom: can a reference cycle be reached from object id (unknown values count as cyclic once
+// any cycle exists in the program)?
+func (g *pgen) cyclicFrom(id int) bool {
+	if id == -2 {
+		for i := range g.objs {
+			if g.cyclicFrom(i) {
+				return true
+			}
+		}
+		return false
+	}
+	if id < 0 {
+		return false
+	}
+	state := map[int]int{}
+	var dfs func(int) bool
+	dfs = func(x int) bool {
+		if x < 0 {
+			return x == -2 && false
+		}
+		if state[x] == 1 {
+			return true
+		}
+		if state[x] == 2 {
+			return false
+		}
+		state[x] = 1
+		for _, c := range g.objs[x] {
+			if dfs(c) {
+				return true
+			}
+		}
+		state[x] = 2
+		return false
+	}
+	return dfs(id)
+}
+
+func (g *pgen) topObj(i int) int {
+	if i < len(g.ob) {
+		return g.ob[len(g.ob)-1-i]
+	}
+	return -1
 }
 
 var intBoundaries = []int64{0, 1, 2, 3, -1, 15, 16, 17, 255, 256, 1023, 1024, 1025, 2047, 2048, 2049, 65535, 65536,
 	1 << 20, 1<<20 + 1, 1<<31 - 1, 1 << 31, 1<<32 - 1, 1 << 32, 1<<63 - 1, -1 << 63, -2, -1024}
 
-func (g *pgen) push(k byte) { g.st = append(g.st, k) }
+func (g *pgen) push(k byte) {
+	o := -1
+	if k == 'a' || k == 's' || k == 'm' {
+		o = -2
+	}
+	g.pushObj(k, o)
+}
+func (g *pgen) pushObj(k byte, o int) { g.st = append(g.st, k); g.ob = append(g.ob, o) }
 func (g *pgen) pop() {
 	if len(g.st) > 0 {
 		g.st = g.st[:len(g.st)-1]
+		g.ob = g.ob[:len(g.ob)-1]
 	}
 }
 func (g *pgen) top(i int) byte {
@@ -79,13 +140,13 @@ func (g *pgen) newContainer() {
 	switch g.r.Intn(5) {
 	case 0:
 		g.a.op(vm.NEWMAP)
-		g.push('m')
+		g.pushObj('m', g.newObj())
 	case 1:
 		g.a.int(int64(g.r.Intn(4))).op(vm.NEWSTRUCT)
-		g.push('s')
+		g.pushObj('s', g.newObj())
 	default:
 		g.a.int(int64(g.r.Intn(4))).op(vm.NEWARRAY)
-		g.push('a')
+		g.pushObj('a', g.newObj())
 	}
 }
 
@@ -107,7 +168,7 @@ func (g *pgen) findKind(set string) int {
 
 // pick copies the slot at distance d to the top.
 func (g *pgen) pick(d int) {
-	k := g.top(d)
+	k, o := g.top(d), g.topObj(d)
 	switch d {
 	case 0:
 		g.a.op(vm.DUP)
@@ -116,7 +177,21 @@ func (g *pgen) pick(d int) {
 	default:
 		g.a.int(int64(d)).op(vm.PICK)
 	}
-	g.push(k)
+	g.pushObj(k, o)
+}
+
+// link records container <- item in the generator's picture (a struct item is cloned by the VM:
+// a new object with the same children).
+func (g *pgen) link(cont, item int, itemKind byte) {
+	if cont < 0 {
+		return
+	}
+	if itemKind == 's' && item >= 0 {
+		n := g.newObj()
+		g.objs[n] = append([]int{}, g.objs[item]...)
+		item = n
+	}
+	g.objs[cont] = append(g.objs[cont], item)
 }
 
 func (g *pgen) step() {
@@ -149,6 +224,9 @@ func (g *pgen) step() {
 			g.pushBytes()
 		default:
 			g.pushInt()
+		}
+		if g.isCont(g.top(0)) {
+			g.link(g.topObj(1), g.topObj(0), g.top(0))
 		}
 		if k == 'm' { // map: key value SETITEM
 			if g.isCont(g.top(0)) {
@@ -335,6 +413,14 @@ func (g *pgen) sink() {
 	if d < 0 || g.r.Intn(6) == 0 {
 		d = g.findKind("asmib")
 	}
+	if d >= 0 && g.isCont(g.top(d)) && g.cyclicFrom(g.topObj(d)) {
+		if *g.cyclicBudget <= 0 {
+			d = g.findKind("ib")
+		} else {
+			*g.cyclicBudget--
+			g.tags["cyclic"] = true
+		}
+	}
 	if d < 0 {
 		g.pushInt()
 		d = 0
@@ -432,7 +518,7 @@ func (g *pgen) program(steps int) []byte {
 		back := loop - (len(g.a.code()))
 		g.a.op(vm.JMPIF).raw(byte(uint16(back)), byte(uint16(back)>>8)) // n counter
 		g.a.op(vm.DROP)
-		g.st = []byte{'a'}
+		g.st, g.ob = []byte{'a'}, []int{-1}
 		g.tags["deep"] = true
 		g.sink()
 		return g.a.code()
@@ -465,11 +551,12 @@ func (g *pgen) program(steps int) []byte {
 
 func genPrograms(c *hx.Ctx, w *world, n int) []Probe {
 	var out []Probe
+	budget := c.N(4, 40)
 	for i := 0; i < n; i++ {
-		g := &pgen{r: c.Rng, w: w, a: newAsm(), tags: map[string]bool{}}
+		g := &pgen{r: c.Rng, w: w, a: newAsm(), tags: map[string]bool{}, cyclicBudget: &budget}
 		code := g.program(4 + c.Rng.Intn(40))
 		name := "prog"
-		for _, t := range []string{"loop", "recursion", "deep", "nest", "native", "serialize", "notify", "storage", "appcall"} {
+		for _, t := range []string{"loop", "recursion", "deep", "cyclic", "nest", "native", "serialize", "notify", "storage", "appcall"} {
 			if g.tags[t] {
 				name += "+" + t
 				c.Count("prog-tag:" + t)
